@@ -221,6 +221,8 @@ struct_property!(C07, "C07", "tape -> universe that is conflict-free by construc
 pub struct C08 {
     pub params: Params,
     pub stage: &'static str,
+    /// precondition true by construction (gen_direct_best) instead of by chance
+    pub constructed: bool,
 }
 
 impl C08 {
@@ -228,6 +230,20 @@ impl C08 {
         let mut p = self.params.clone();
         p.p_root_union = 0;
         p.max_soft = 0;
+        if self.constructed {
+            let split = tape.len().min(64);
+            let (head, tail) = tape.split_at(split);
+            let mut t = Tape::new(tail);
+            let (u, problem) = gen_direct_best(&mut t, &p);
+            let rt = gen_runtime(&mut t, 3);
+            return StructCase {
+                u,
+                problem,
+                rt,
+                extra: head.to_vec(),
+                more: vec![],
+            };
+        }
         decode_case(tape, &p, 3)
     }
 
